@@ -431,6 +431,9 @@ def curated_specs():
         Spec(4, 'TTAT', [(0, 1, 'sv'), (1, 2, 'p'), (2, 3, 'q'), (0, 3, 'p')])
     )  # chain through analysis + skip
     C.append(Spec(3, 'TTT', [(0, 2, 'p')]))  # one independent algorithm (frame)
+    # an analysis and a task that do not depend on one another: both can be in one released batch, in either order
+    C.append(Spec(2, 'AT', []))
+    C.append(Spec(2, 'TA', []))
     return C
 
 
